@@ -72,3 +72,27 @@ Theorem generated_formulas_total_jcd :
   forall m t q, is_jcd m = true -> env_t t = true ->
   formulas_ok {| fm := m; ft := PFloat t; fq := q |} size_bound.
 Proof. exact formulas_ok_jcd. Qed.
+
+(* ---- tie: the public wrappers jaccard_join_py / cosine_join_py / dice_join_py as REGENERATED from the
+   source on this run (Gen/WrapperGen.v: DataFrames as values of Model/Frame.v, validators and the
+   tokenizer flag handled by the shape checks of harness/translate/wrappers.py) compute -- through
+   dropna / projection / split_table / the per-chunk loop / concat / missing-value pairs / _id --
+   a frame whose header is header_spec and whose rows are, up to the order within a chunk, the rows
+   of api_join with the declared projection *)
+From SSJ Require Import Frame WrapperGen WrapperRefineFrame WrapperRefineChunks WrapperRefineMissing WrapperRefineCore WrapperRefine WrapperRefineClosed WrapperRefineApi WrapperRefineEnd.
+Theorem generated_jaccard_wrapper_refines_model :
+  ltac:(let t := type of jaccard_join_rows_end_to_end in exact t).
+Proof. exact jaccard_join_rows_end_to_end. Qed.
+Print Assumptions generated_jaccard_wrapper_refines_model.
+Theorem generated_cosine_wrapper_refines_model :
+  ltac:(let t := type of cosine_join_rows_end_to_end in exact t).
+Proof. exact cosine_join_rows_end_to_end. Qed.
+Print Assumptions generated_cosine_wrapper_refines_model.
+Theorem generated_dice_wrapper_refines_model :
+  ltac:(let t := type of dice_join_rows_end_to_end in exact t).
+Proof. exact dice_join_rows_end_to_end. Qed.
+Print Assumptions generated_dice_wrapper_refines_model.
+Theorem generated_convert_dataframe_to_array_code :
+  ltac:(let t := type of convert_dataframe_to_array_eq in exact t).
+Proof. exact convert_dataframe_to_array_eq. Qed.
+Print Assumptions generated_convert_dataframe_to_array_code.
